@@ -510,6 +510,12 @@ pub fn declared_payload_len(input: &[u8]) -> Option<u64> {
     read_varint(input.get(4 + w..)?).map(|x| x.0)
 }
 
+/// Shorter inputs first; ties broken by content so that the reported witness does not depend on
+/// scheduling.
+pub fn witness_cost(input: &[u8]) -> u64 {
+    ((input.len() as u64).min(0xff_ffff) << 24) | (mcx::fnv64(input) & 0xff_ffff)
+}
+
 pub fn crash_label(c: Crash) -> String {
     match c {
         Crash::Hang => "hang".into(),
@@ -601,7 +607,7 @@ fn frames_on_panic(sp: &FrameSpace, it: &FrameItem, c: &Caught) -> Violation {
         format!("frame decoding panicked at {}:{} ({}) on input {}", c.file, c.line, c.message, hex_head(&input, 24)),
         sp.witness(it),
     )
-    .cost(input.len() as u64)
+    .cost(witness_cost(&input))
 }
 
 fn frames_on_crash(sp: &FrameSpace, it: &FrameItem, crash: Crash, tail: &str) -> Violation {
@@ -622,7 +628,7 @@ fn frames_on_crash(sp: &FrameSpace, it: &FrameItem, crash: Crash, tail: &str) ->
         ),
         (c, None) => (format!("C13/frames/abort/{}", crash_label(c)), format!("worker died ({}) while decoding; stderr: {}", crash_label(c), tail.trim())),
     };
-    Violation::new(fp, format!("{what}; input {}", hex_head(&input, 24)), sp.witness(it)).cost(input.len() as u64)
+    Violation::new(fp, format!("{what}; input {}", hex_head(&input, 24)), sp.witness(it)).cost(witness_cost(&input))
 }
 
 /// 13b. See the module documentation.
@@ -827,7 +833,7 @@ fn pkt_on_panic(sp: &PktSpace, it: &PktItem, c: &Caught) -> Violation {
         format!("git_request panicked at {}:{} ({}) on a request header starting {:?} ({} bytes)", c.file, c.line, c.message, String::from_utf8_lossy(&input[..input.len().min(4)]), input.len()),
         sp.witness(it),
     )
-    .cost(sp.declared(it).map(|d| d as u64).unwrap_or(70_000 + input.len() as u64))
+    .cost(((sp.declared(it).map(|d| d as u64).unwrap_or(70_000)) << 32) | (witness_cost(&input) & 0xffff_ffff))
 }
 
 fn pkt_on_crash(sp: &PktSpace, it: &PktItem, crash: Crash, tail: &str) -> Violation {
